@@ -59,7 +59,7 @@ def emit(n, p, mode, kind):
             '    int r = %s.f(%s);' % (callobj, ', '.join(args)),
             chk('WITH saw every position in order and RETURN(_p) returned it', 'r', v), chk('SIDE_EFFECT saw _p', 'seen', v), '  }',
             '  { REQUIRE_CALL(m, f(%s)).THROW(_%d);' % (wild, p),
-            '    int thrown = -1; try { %s.f(%s); } catch (int x) { thrown = x; }' % (callobj, ', '.join(args)),
+            '    int thrown = -1; try { %s.f(%s); } catch (int x) { thrown = x; } catch (...) { thrown = -2; }' % (callobj, ', '.join(args)),
             chk('THROW(_p) threw the p-th argument', 'thrown', v), '  }',
             '  { int k = 1; REQUIRE_CALL(m, f(%s)).LR_WITH(_%d == %d * k).SIDE_EFFECT(g_sink = _%d).LR_RETURN(_%d + 0);' % (wild, p, v, p, p),
             '    int r = %s.f(%s);' % (callobj, ', '.join(args)),
